@@ -11,7 +11,7 @@ CONSTANT MaxFaults = 1
 CONSTANT MaxTries = 2
 CONSTANT FaultKinds = {"drop", "trunc", "burst", "dup"}
 CONSTANT Bursts <- BurstsDef
-CONSTANT Script <- ScriptAll
+CONSTANT Script <- ScriptReassign
 INVARIANT NoBadAccept
 INVARIANT NoMisMatch
 INVARIANT FramingOk
